@@ -25,7 +25,7 @@ func pick[T any](rng *rand.Rand, xs []T) T { return xs[rng.IntN(len(xs))] }
 func genPeer(rng *rand.Rand, allowRaw bool) PeerSpec {
 	if allowRaw && rng.IntN(4) == 0 {
 		return PeerSpec{Kind: "raw", Mode: pick(rng, []string{"silent", "partial", "garbage", "stall", "mcast2",
-			"redun-play-tcp", "redun-play-tcp", "redun-play-udp", "redun-play-udp", "redun-record-tcp"}), Proto: "tcp"}
+			"redun-play-tcp", "redun-play-tcp", "redun-play-udp", "redun-play-udp", "redun-record-tcp", "backchan-udp", "backchan-udp"}), Proto: "tcp"}
 	}
 	ps := PeerSpec{Kind: "client", Mode: pick(rng, []string{"play", "play", "record"}), Proto: pick(rng, []string{"udp", "tcp"}),
 		Park: 1 + rng.IntN(StepFlow2)}
@@ -121,8 +121,12 @@ func genSpec(rng *rand.Rand, id int) Spec {
 		sp.ClosePoint = rng.IntN(StepTeardown)
 		k := rng.IntN(100)
 		switch {
-		case k < 55:
+		case k < 42:
 			sp.ServerKind = "real"
+		case k < 58:
+			// the client's internal reset paths before the Close: automatic UDP -> TCP switch (UDP blackholed or a
+			// server that never sends, 461, TCP transport in the SETUP answer), redirect during DESCRIBE
+			genResetPath(rng, &sp)
 		case k < 78:
 			// a scripted server that sends bursts (several requests / frames / responses in one write)
 			sp.ServerKind = "script"
@@ -178,6 +182,33 @@ func genBurst(rng *rand.Rand, sp *Spec) {
 	}
 }
 
+func genResetPath(rng *rand.Rand, sp *Spec) {
+	sp.Peers = []PeerSpec{{Kind: "client", Mode: "play", Proto: "auto"}}
+	sp.BurstStep, sp.Burst = 0, nil
+	switch rng.IntN(5) {
+	case 0:
+		sp.ServerKind, sp.Blackhole = "real", true
+	case 1:
+		sp.ServerKind, sp.ScriptSetup = "script", "udp-silent"
+	case 2:
+		sp.ServerKind, sp.ScriptSetup = "script", "461"
+	case 3:
+		sp.ServerKind, sp.ScriptSetup = "script", "tcp-answer"
+	default:
+		sp.ServerKind, sp.Redirect = "script", true
+		sp.Peers[0].Proto = pick(rng, []string{"tcp", "auto"})
+		sp.ScriptSetup = "tcp-answer"
+	}
+	if sp.ServerKind == "script" && rng.IntN(3) == 0 {
+		sp.Redirect = true
+	}
+	sp.ClosePoint = StepDescribe + rng.IntN(StepFlow2-StepDescribe+1)
+	if (sp.Blackhole || sp.ScriptSetup == "udp-silent") && rng.IntN(2) == 0 {
+		// around the moment the client switches by itself (InitialUDPReadTimeout = 150 ms after PLAY)
+		sp.ClosePoint, sp.During, sp.DelayUs = StepPlay, true, 50000+rng.IntN(300000)
+	}
+}
+
 // sweep enumerates target × mode × transport × close point × (between | during).
 func sweep(rng *rand.Rand) []Spec {
 	var out []Spec
@@ -223,7 +254,7 @@ func sweep(rng *rand.Rand) []Spec {
 	}
 	// redundant requests (PLAY twice, PAUSE twice, …) before the close moment
 	for _, target := range []string{"server", "stream", "session"} {
-		for _, mode := range []string{"redun-play-tcp", "redun-play-udp", "redun-record-tcp"} {
+		for _, mode := range []string{"redun-play-tcp", "redun-play-udp", "redun-record-tcp", "backchan-udp"} {
 			if target != "server" && mode == "redun-record-tcp" {
 				continue
 			}
@@ -251,6 +282,27 @@ func sweep(rng *rand.Rand) []Spec {
 					sp.ClosePoint, sp.During, sp.DelayUs = step-1, true, rng.IntN(500)
 					if step == StepPause {
 						sp.ClosePoint = StepFlow
+					}
+				}
+				out = append(out, sp)
+				id++
+			}
+		}
+	}
+	// the client's internal reset paths, Close at every later step
+	for _, v := range []Spec{{ServerKind: "real", Blackhole: true}, {ServerKind: "script", ScriptSetup: "udp-silent"},
+		{ServerKind: "script", ScriptSetup: "461"}, {ServerKind: "script", ScriptSetup: "tcp-answer"},
+		{ServerKind: "script", ScriptSetup: "tcp-answer", Redirect: true}} {
+		for _, cp := range []int{StepSetup1, StepPlay, StepFlow, StepPause, StepPlay2, StepFlow2} {
+			for _, during := range []bool{false, true} {
+				sp := v
+				sp.ID, sp.Target, sp.ClosePoint, sp.During = id, "client", cp, during
+				sp.Procs, sp.WriteTimeout, sp.Seed, sp.Noise = pick(rng, []int{1, 2, 4, 8}), 400, rng.Uint64(), rng.IntN(3)
+				sp.Peers = []PeerSpec{{Kind: "client", Mode: "play", Proto: "auto"}}
+				if during {
+					sp.DelayUs = rng.IntN(800)
+					if cp == StepPlay && (sp.Blackhole || sp.ScriptSetup == "udp-silent") {
+						sp.DelayUs = 50000 + rng.IntN(300000) // around the automatic switch
 					}
 				}
 				out = append(out, sp)
@@ -698,7 +750,7 @@ func Run(ctx *corr.Ctx) {
 		for _, f := range []struct {
 			on   bool
 			name string
-		}{{sp.Hammer, "with:hammer"}, {sp.Joiner, "with:joiner"}, {sp.PeerTeardown, "with:peer-teardown"}, {sp.ServerKind == "stall", "with:stalled-server"}, {sp.ServerKind == "mute", "with:mute-server"}, {sp.ServerKind == "script", "with:script-server-burst"}, {sp.SlowCbUs > 0, "with:slow-callbacks"}} {
+		}{{sp.Hammer, "with:hammer"}, {sp.Joiner, "with:joiner"}, {sp.PeerTeardown, "with:peer-teardown"}, {sp.ServerKind == "stall", "with:stalled-server"}, {sp.ServerKind == "mute", "with:mute-server"}, {sp.ServerKind == "script" && len(sp.Burst) > 0, "with:script-server-burst"}, {sp.Blackhole, "with:udp-blackhole-auto-switch"}, {sp.ScriptSetup != "" && sp.Peers[0].Proto == "auto", "with:script-setup-" + sp.ScriptSetup}, {sp.Redirect, "with:redirect"}, {sp.SlowCbUs > 0, "with:slow-callbacks"}} {
 			if f.on {
 				ctx.Dist(f.name)
 			}
